@@ -94,7 +94,12 @@ type graphCfg struct {
 	Restarts int
 	DelayPM  int
 	Ops      int
+	Burst    bool
 }
+
+// graphBurst is set by graph_burst_test.go (build tag verif): it switches a run to overlapping handlers and returns
+// the function that ends the overlap and probes the final state sequentially.
+var graphBurst func(s *Sim, in *Instance, tr *Tracker, g *planGraph) (finish func())
 
 func runGraph(prop string, mix opMix) func(s *Sim) {
 	return func(s *Sim) {
@@ -416,6 +421,11 @@ func runGraph(prop string, mix opMix) func(s *Sim) {
 				}
 			}
 		}
+		// one run in five of the C03 and C06 engines lets the handlers overlap (no restarts in those runs)
+		if (prop == "C03" || prop == "C06") && graphBurst != nil && wl.Chance(1, 5) {
+			cfg.Burst = true
+			cfg.Restarts = 0
+		}
 		s.SampleText = fmt.Sprintf("cfg=%+v ops=%d: %s", cfg, nOps, strings.Join(sample, " | "))
 
 		restartsLeft := cfg.Restarts
@@ -433,13 +443,26 @@ func runGraph(prop string, mix opMix) func(s *Sim) {
 			}
 			return nil
 		}
+		burstOn := false
 		s.OnQuiescent = append(s.OnQuiescent, func() {
+			if burstOn {
+				return // the monitors' own requests would park at the yield points; the state is checked when the overlap ends
+			}
 			tr.CheckState(false)
 			if l := s.TakeLog(); strings.Contains(l, "Hash failed") {
 				s.Fail("C03", "verify-found-mismatch", "store verification logged a hash mismatch: %s", firstLineWith(l, "Hash failed"))
 			}
 		})
+		var finishBurst func()
+		if cfg.Burst {
+			finishBurst = graphBurst(s, in, tr, g)
+			burstOn = true
+		}
 		s.Run()
+		if finishBurst != nil {
+			finishBurst()
+			burstOn = false
+		}
 		if s.Failed() {
 			return
 		}
